@@ -78,6 +78,15 @@ template), the plan the template sees (`planOf`, for any interface headers `hs`)
 derive them from the decidable region predicate the driver prints).
 -/
 
+/-- from doc text to the setting below: when the request directive reads back as meant
+    (C06_parse_roundtrip) and the alias directive reads back as the written pairs, cooking the method
+    from its doc text is cooking it from its meaning -/
+theorem C06_cook_of_parse (md : Method) (m : MethodSpec)
+    (hp : parsePath md.doc = .ok ⟨m.verb, m.path, placeholders m.path⟩)
+    (ha : aliasMapOf md.doc = m.alias) (hps : md.params = m.params) :
+    cookMethod md = cookParsed ⟨m.verb, m.path, placeholders m.path⟩ m.alias m.params := by
+  simp [cookMethod, hp, ha, hps]
+
 /-- the whole property for one call: exactly one request, and it is the one the directive describes -/
 theorem C06_request (hs : List (String × String)) (anyCtx : Bool) (m : MethodSpec)
     (c : Cooked) (d : PathDir) (subs : List PathSub) (args : Args)
@@ -153,35 +162,6 @@ theorem C06_one_request (pl : Plan) (args : Args) :
 
 /-! ## From the decidable region predicate to the hypotheses above -/
 
-theorem noBrace_of_contains (s : List Char) (h : s.contains '{' = false) : noBrace s := by
-  intro c hc e
-  subst e
-  have : s.contains '{' = true := by simpa using hc
-  rw [h] at this; cases this
-
-theorem region_wf (i : IfaceSpec) (calls : List Call) (h : region i calls = "WF") :
-    structOk i = true ∧ F_mixedCtx i = false ∧ F_bodyNoStruct i = false ∧ F_ptrDict i = false ∧
-    F_twoDicts i = false ∧ F_qualScalar i = false ∧ F_nilStructDeref i calls = false ∧
-    F_pathArgBrace i calls = false := by
-  unfold region at h
-  cases h0 : structOk i <;> simp only [h0, Bool.not_false, Bool.not_true, Bool.false_eq_true, ↓reduceIte] at h
-  · exact absurd h (by decide)
-  cases h1 : F_mixedCtx i <;> simp only [h1, Bool.false_eq_true, ↓reduceIte] at h
-  case true => exact absurd h (by decide)
-  cases h2 : F_bodyNoStruct i <;> simp only [h2, Bool.false_eq_true, ↓reduceIte] at h
-  case true => exact absurd h (by decide)
-  cases h3 : F_ptrDict i <;> simp only [h3, Bool.false_eq_true, ↓reduceIte] at h
-  case true => exact absurd h (by decide)
-  cases h4 : F_twoDicts i <;> simp only [h4, Bool.false_eq_true, ↓reduceIte] at h
-  case true => exact absurd h (by decide)
-  cases h5 : F_qualScalar i <;> simp only [h5, Bool.false_eq_true, ↓reduceIte] at h
-  case true => exact absurd h (by decide)
-  cases h6 : F_nilStructDeref i calls <;> simp only [h6, Bool.false_eq_true, ↓reduceIte] at h
-  case true => exact absurd h (by decide)
-  cases h7 : F_pathArgBrace i calls <;> simp only [h7, Bool.false_eq_true, ↓reduceIte] at h
-  case true => exact absurd h (by decide)
-  exact ⟨rfl, rfl, rfl, rfl, rfl, rfl, rfl, rfl⟩
-
 /-- every method of an interface the driver puts in region WF satisfies `MethodOK` -/
 theorem C06_wf_methodOK (i : IfaceSpec) (calls : List Call) (h : region i calls = "WF")
     (m : MethodSpec) (hm : m ∈ i.methods) : MethodOK m := by
@@ -253,7 +233,111 @@ theorem C06_wf_argsOK (i : IfaceSpec) (calls : List Call) (h : region i calls = 
         exact ⟨cl, hc, by simp only [hm, List.any_eq_true]; exact ⟨n, hn, hcn⟩⟩
       rw [hbr] at this; cases this
 
-/-! non-vacuity -/
+/-! ## Finding regions: concrete witnesses on which the unchanged code violates the property -/
+
+section Witnesses
+
+def pCtx : Param := ⟨"ctx", .ctx, false⟩
+def pStr (n : String) : Param := ⟨n, .scalar, false⟩
+
+/-- Q1: `A(ctx, …)` next to `B()` -/
+def wMixedI : Iface := ⟨[], [⟨"A", "shoot: Get(\"/a\")\n".toList, [pCtx]⟩, ⟨"B", "shoot: Get(\"/b\")\n".toList, []⟩]⟩
+def wMixedS : IfaceSpec := ⟨[], [⟨"A", .get, "/a".toList, [], [pCtx]⟩, ⟨"B", .get, "/b".toList, [], []⟩]⟩
+
+theorem C06_F_mixedCtx_witness :
+    region wMixedS [] = "F_mixedCtx" ∧ generate wMixedI = .formatError := by decide
+
+/-- Q2: `//shoot: Post("/a/{id}")  A(ctx, id string)` -/
+def wPostI : Iface := ⟨[], [⟨"A", "shoot: Post(\"/a/{id}\")\n".toList, [pCtx, pStr "id"]⟩]⟩
+def wPostS : IfaceSpec := ⟨[], [⟨"A", .post, "/a/{id}".toList, [], [pCtx, pStr "id"]⟩]⟩
+
+theorem C06_F_bodyNoStruct_witness :
+    region wPostS [] = "F_bodyNoStruct" ∧ (generate wPostI).failsToCompile = true ∧
+    callModel wPostI "A" [("id", .scalar (.txt ['7']))] = none ∧
+    (callSpec wPostS "A" [("id", .scalar (.txt ['7']))]).isSome = true := by
+  decide
+
+/-- Q5: `A(ctx, m *map[string]string)` on GET -/
+def wPtrDictI : Iface := ⟨[], [⟨"A", "shoot: Get(\"/a\")\n".toList, [pCtx, ⟨"m", .dict, true⟩]⟩]⟩
+def wPtrDictS : IfaceSpec := ⟨[], [⟨"A", .get, "/a".toList, [], [pCtx, ⟨"m", .dict, true⟩]⟩]⟩
+
+theorem C06_F_ptrDict_witness :
+    region wPtrDictS [] = "F_ptrDict" ∧ (generate wPtrDictI).failsToCompile = true ∧
+    (callSpec wPtrDictS "A" [("m", .dict [("k", ['v'])])]).isSome = true := by
+  decide
+
+/-- Q6: `A(ctx, extra, more map[string]string)` on DELETE: `extra` never reaches the query -/
+def wTwoI : Iface := ⟨[], [⟨"A", "shoot: Delete(\"/a\")\n".toList, [pCtx, ⟨"extra", .dict, false⟩, ⟨"more", .dict, false⟩]⟩]⟩
+def wTwoS : IfaceSpec := ⟨[], [⟨"A", .delete, "/a".toList, [], [pCtx, ⟨"extra", .dict, false⟩, ⟨"more", .dict, false⟩]⟩]⟩
+def wTwoArgs : Args := [("ctx", .ctx "t"), ("extra", .dict [("x", ['1'])]), ("more", .dict [("y", ['2'])])]
+
+theorem C06_F_twoDicts_witness :
+    region wTwoS [⟨"A", wTwoArgs⟩] = "F_twoDicts" ∧
+    (callModel wTwoI "A" wTwoArgs).isSome = true ∧ callModel wTwoI "A" wTwoArgs ≠ callSpec wTwoS "A" wTwoArgs := by
+  decide
+
+/-- Q7: `A(ctx, wait time.Duration)` on GET: `wait` never reaches the query -/
+def wQualI : Iface := ⟨[], [⟨"A", "shoot: Get(\"/a\")\n".toList, [pCtx, ⟨"wait", .qualOther, false⟩]⟩]⟩
+def wQualS : IfaceSpec := ⟨[], [⟨"A", .get, "/a".toList, [], [pCtx, ⟨"wait", .qualOther, false⟩]⟩]⟩
+def wQualArgs : Args := [("ctx", .ctx "t"), ("wait", .scalar (.txt "1.5s".toList))]
+
+theorem C06_F_qualScalar_witness :
+    region wQualS [⟨"A", wQualArgs⟩] = "F_qualScalar" ∧
+    (callModel wQualI "A" wQualArgs).isSome = true ∧ callModel wQualI "A" wQualArgs ≠ callSpec wQualS "A" wQualArgs := by
+  decide
+
+/-- Q3: `A(ctx, req *Req)` on GET called with `nil`: panic instead of a request without those fields -/
+def wNilI : Iface := ⟨[], [⟨"A", "shoot: Get(\"/a\")\n".toList, [pCtx, ⟨"req", .struct [⟨"Name", true, false, ""⟩], true⟩]⟩]⟩
+def wNilS : IfaceSpec := ⟨[], [⟨"A", .get, "/a".toList, [], [pCtx, ⟨"req", .struct [⟨"Name", true, false, ""⟩], true⟩]⟩]⟩
+def wNilArgs : Args := [("ctx", .ctx "t"), ("req", .struct true [])]
+
+theorem C06_F_nilStructDeref_witness :
+    region wNilS [⟨"A", wNilArgs⟩] = "F_nilStructDeref" ∧
+    callModel wNilI "A" wNilArgs = some .panic ∧
+    callSpec wNilS "A" wNilArgs = some (.sent ⟨"GET", "/a".toList, some [], none, [("Accept", "application/json")], some "t"⟩) := by
+  decide
+
+/-- Q4: `//shoot: Get("/{a}/{b}")  A(ctx, a, b string)` called with `a = "{b}"`, `b = "x"` -/
+def wBraceI : Iface := ⟨[], [⟨"A", "shoot: Get(\"/{a}/{b}\")\n".toList, [pCtx, pStr "a", pStr "b"]⟩]⟩
+def wBraceS : IfaceSpec := ⟨[], [⟨"A", .get, "/{a}/{b}".toList, [], [pCtx, pStr "a", pStr "b"]⟩]⟩
+def wBraceArgs : Args := [("ctx", .ctx "t"), ("a", .scalar (.txt "{b}".toList)), ("b", .scalar (.txt "x".toList))]
+
+theorem C06_F_pathArgBrace_witness :
+    region wBraceS [⟨"A", wBraceArgs⟩] = "F_pathArgBrace" ∧
+    (callModel wBraceI "A" wBraceArgs).bind Outcome.path? = some "/x/{b}".toList ∧
+    (callSpec wBraceS "A" wBraceArgs).bind Outcome.path? = some "/{b}/x".toList := by
+  decide
+
+end Witnesses
+
+/-! ## Non-vacuity: a concrete method and call inside region WF, with the hypotheses of the theorems -/
+
+def exM : MethodSpec :=
+  ⟨"GetUser", .get, "/users/{id}/x".toList, [("userID", "id"), ("pageSize", "size")],
+    [pCtx, pStr "userID", ⟨"pageSize", .scalar, true⟩,
+     ⟨"req", .struct [⟨"Name", true, false, "alias=name"⟩, ⟨"PageIdx", true, true, ""⟩, ⟨"n", false, false, ""⟩], true⟩,
+     ⟨"m", .dict, false⟩]⟩
+def exI : IfaceSpec := ⟨[("X-Env", "test")], [exM]⟩
+def exArgs : Args :=
+  [("ctx", .ctx "t1"), ("userID", .scalar (.txt "a b".toList)), ("pageSize", .scalar .nilPtr),
+   ("req", .struct false [("Name", .txt "x".toList), ("PageIdx", .nilPtr), ("n", .txt "5".toList)]),
+   ("m", .dict [("k", "v".toList)])]
+
+example : region exI [⟨"GetUser", exArgs⟩] = "WF" := by decide
+example : ∃ c d subs, CookedFor exM c d subs := by
+  unfold CookedFor
+  cases h : cookParsed ⟨exM.verb, exM.path, placeholders exM.path⟩ exM.alias exM.params with
+  | ok c d subs => exact ⟨c, d, subs, rfl⟩
+  | skipped => exact absurd h (by decide)
+  | fatal => exact absurd h (by decide)
+example : callModel ⟨"shoot: headers={X-Env:test}\n".toList,
+      [⟨"GetUser", "shoot: Get(\"/users/{id}/x\")\nshoot: alias={userID:id},{pageSize:size}\n".toList, exM.params⟩]⟩
+      "GetUser" exArgs
+    = some (.sent ⟨"GET", "/users/a b/x".toList,
+        some [("name", "x".toList), ("n", "5".toList), ("k", "v".toList)], none,
+        [("Accept", "application/json"), ("X-Env", "test")], some "t1"⟩) := by decide
+
+/-! non-vacuity of the recogniser theorems -/
 example : parsePath ("shoot: Get(\"/users/{id}\")\nshoot: alias={userID:id}\n".toList)
     = .ok ⟨.get, "/users/{id}".toList, ["id".toList]⟩ := by decide
 example : parsePath ("shoot: pAtCh(/a b/{x}/{y_1}) ; \n".toList)
